@@ -37,7 +37,9 @@ VecCases(u) == {[kind |-> "vec", date |-> FALSE, items |-> <<i>>] : i \in Items}
 (* option groups: concrete tokens + their documented meaning *)
 \* the two input files also carry another score column whose name has an upper-case letter (-fcst Tmax / -obs Tmax select it)
 WithTmax(g, miss) == [ts |-> g.ts, ls |-> g.ls, ss |-> g.ss, hasObs |-> g.hasObs, mo |-> g.mo, mf |-> g.mf, bump |-> g.bump, ex |-> ("Tmax" :> miss)]
-CliIn1 == WithTmax(C03In1, {<<2, 1, 1>>})
+\* in the first file every observation at the second lead time (12 h) is missing: tables along lead time have a row without a score between two
+\* rows with one (-acc: "missing scores count as 0" shows only there; after seed C13-i)
+CliIn1 == WithTmax([C03In1 EXCEPT !.mo = @ \cup {<<t, 2, s>> : t \in 1..4, s \in 1..4}], {<<2, 1, 1>>})
 CliIn2 == WithTmax(C03In2, {})
 D0 == DsOfSmall([inp |-> <<CliIn1, CliIn2>>, clim |-> NoClimGen, opt |-> NoOptions])
 DC == DsOfSmall([inp |-> <<CliIn1, CliIn2>>, clim |-> C03Clim, opt |-> NoOptions])
